@@ -996,7 +996,9 @@ fn probe_hostile(arg: u64, sim: &Sim, obs: &Obs) -> ProbeResult {
                 if !out.ok {
                     continue;
                 }
-                let sig = format!("{name} [{lc}]{}", if with_coins { " +coins" } else { "" });
+                // buckets can be topped up in every lifecycle state, so the signature does not split them
+                let sig_lc = if is_listing { lc } else { "bucket" };
+                let sig = format!("{name} [{sig_lc}]{}", if with_coins { " +coins" } else { "" });
                 let post = f.observe();
                 let altered = match v {
                     Victim::L(l) => post.listing_at(&owner, id).map_or(true, |x| x.raw != l.raw),
